@@ -119,6 +119,16 @@ def job(j):
         out = []
         dump(o, j["tp"], out)
         return {"flat": out, "type": type(o).__name__}
+    if kind == "roundtrip":  # oracle-free: serialize, deserialize with the same generated code, serialize again
+        obj = build(j["plan"])
+        b1 = b"".join(bytes(x) for x in ns.serialize(obj))
+        o2 = ns.deserialize(get_cls(j["mod"], j["cls"]), [memoryview(bytearray(b1))])
+        if o2 is None:
+            return {"b1": b1.hex(), "none": True}
+        b2 = b"".join(bytes(x) for x in ns.serialize(o2))
+        out = []
+        dump(o2, j["tp"], out)
+        return {"b1": b1.hex(), "b2": b2.hex(), "flat": out}
     if kind == "builtin_roundtrip":
         obj = build(j["plan"])
         a = b"".join(bytes(x) for x in ns.serialize(obj)).hex()
